@@ -113,6 +113,12 @@ func findElemInObj(
 		return object.BuiltInNil
 	}
 
+	// NOTE: copy err object, otherwise stacktrace of the shared object is overwritten
+	if err, ok := ret.(*object.PanErr); ok {
+		copied := *err
+		return &copied
+	}
+
 	return ret
 }
 
